@@ -132,10 +132,10 @@ def run_case(case, eng, res):
             inr = b_and(mask >= 2, mask <= 254)
             if tag == "ok":
                 checks.append(("rejects_out_of_range_mask", b_not(inr)))
-                if not isinstance(r, SymSet):
+                if not isinstance(r, (SymSet, set, frozenset)):
                     raise E.Unsupported("decode returned %r" % type(r).__name__)
                 for k, d in enumerate([Days[n] for n in DAYN]):
-                    has = r.contains(d)
+                    has = r.contains(d) if isinstance(r, SymSet) else (d in r)
                     bit = b_not(i_eq(mask & (1 << (k + 1)), 0))
                     checks.append(("decoded_days_equal_bits", b_not(b_iff(has, bit))))
             else:
@@ -143,7 +143,8 @@ def run_case(case, eng, res):
         elif form == "roundtrip":
             if tag == "ok":
                 for g, d in zip(info["guards"], [Days[n] for n in DAYN]):
-                    checks.append(("decode_encode_identity", b_not(b_iff(r.contains(d), g))))
+                    has = r.contains(d) if isinstance(r, SymSet) else (d in r)
+                    checks.append(("decode_encode_identity", b_not(b_iff(has, g))))
             else:
                 checks.append(("roundtrip_raises", True))
         for lbl, bad in checks:
